@@ -87,9 +87,15 @@ def _f17(prop, sub, v, case):
 
 @pred('F24')
 def _f24(prop, sub, v, case):
-    # exact elliptical overlap kernel: a pixel corner lying on the ellipse
-    # (|rho^2-1| < 1e-10 in the unit-disk frame) takes the "vertex on circle"
-    # branches of overlap_area_triangle_unit_circle, which mis-assign area
-    return (v.aid in ('exact_weight', 'weight_range', 'certain_pixel')
+    # exact elliptical overlap kernel: degenerate contact between the pixel
+    # grid and the ellipse (a pixel corner on the ellipse, or a pixel edge
+    # tangent to it within rounding) takes the vertex-on-circle / near-
+    # tangent branches of overlap_area_triangle_unit_circle, which
+    # mis-assign area
+    return (v.aid in ('exact_weight', 'weight_range', 'certain_pixel',
+                      'sum_vs_area', 'area_overlap', 'aperture_sum',
+                      'aperture_sum_err', 'stat_sum', 'stat_sum_aper_area',
+                      'stat_sum_err', 'cog_profile', 'rp_profile',
+                      'rp_area', 'cog_area')
             and v.info.get('kind') in ('ellipse', 'eannulus')
-            and v.info.get('corner_on_boundary') is True)
+            and v.info.get('degenerate_contact') is True)
